@@ -7,7 +7,6 @@ import (
 
 	"github.com/ipld/go-ipld-prime"
 	"github.com/ipld/go-ipld-prime/datamodel"
-	"github.com/ipld/go-ipld-prime/must"
 )
 
 // Match determines if the IPLD node satisfies the policy.
@@ -278,8 +277,15 @@ func matchStatement(cur Statement, node ipld.Node) (_ matchResult, leafMost Stat
 //   - For "<=" it returns true when order is -1 or 0
 func isOrdered(expected ipld.Node, actual ipld.Node, satisfies func(order int) bool) bool {
 	if expected.Kind() == ipld.Kind_Int && actual.Kind() == ipld.Kind_Int {
-		a := must.Int(actual)
-		b := must.Int(expected)
+		a, err := actual.AsInt()
+		if err != nil {
+			// an unsigned value above the int64 range (DAG-CBOR can carry one): far outside the safe integer bounds
+			return false
+		}
+		b, err := expected.AsInt()
+		if err != nil {
+			return false
+		}
 
 		return satisfies(cmp.Compare(a, b))
 	}
@@ -353,6 +359,22 @@ func deepEqual(a, b ipld.Node) bool {
 			}
 		}
 		return true
+	case datamodel.Kind_Int:
+		// datamodel.DeepEqual panics on an unsigned value above the int64 range (DAG-CBOR can carry one):
+		// such a value is equal only to the same unsigned value
+		av, aerr := a.AsInt()
+		bv, berr := b.AsInt()
+		if aerr != nil || berr != nil {
+			au, aok := a.(datamodel.UintNode)
+			bu, bok := b.(datamodel.UintNode)
+			if aerr == nil || berr == nil || !aok || !bok {
+				return false
+			}
+			x, xerr := au.AsUint()
+			y, yerr := bu.AsUint()
+			return xerr == nil && yerr == nil && x == y
+		}
+		return av == bv
 	default:
 		return datamodel.DeepEqual(a, b)
 	}
